@@ -253,7 +253,7 @@ def dec(fn):
         context.write("<"); fn(*a, **kw); context.write(">"); return ""
     return decorate
 lk2 = TemplateLookup(); lk2.put_string("foreign", "N[${probe(20)}]"); lk2.put_string("inc", "WRONG-LOOKUP")
-data = dict(probe=probe, up=lambda s: s.upper(), tf=lambda s: probe(9) + s.lower(), dec=dec, Boom=Boom, items=lambda m: (7,), other=lk2.get_template("foreign"))
+data = dict(probe=probe, up=lambda s: s.upper(), tf=lambda s: probe(9) + s.lower(), dec=dec, Boom=Boom, items=lambda m: (7,), other=lk2.get_template("foreign"), q="Q")
 bad = None
 try:
     out = lk.get_template("main").render(**data)
